@@ -125,10 +125,27 @@ pub struct RotBucket {
     pub log: Vec<(String, u16)>,
     /// answer the n-th listing request (0-based) with a one-off 500, as S3 occasionally does
     pub fail_at: Option<usize>,
+    /// answer the n-th listing request (0-based) with a reply that stalls half-way through its
+    /// body, and tell the caller (who then gives the discovery up) that it has been reached
+    pub stall_at: Option<(usize, Arc<tokio::sync::Notify>)>,
 }
 
 impl Scope for RotBucket {
     fn handle(&mut self, req: &Req) -> Resp {
+        if let Some((at, note)) = &self.stall_at {
+            if req.is_list() && *at == self.log.len() {
+                let prefix = req.q("prefix").unwrap_or("").to_string();
+                let max_keys = req.q("max-keys").and_then(|m| m.parse::<usize>().ok());
+                let mut all: Vec<Obj> = self.vols.values().flatten().cloned().collect();
+                all.sort_by(|a, b| a.key.as_bytes().cmp(b.key.as_bytes()));
+                let (sel, truncated, limit) = s3sim::select(&all, &prefix, max_keys);
+                let xml = s3sim::list_xml(&req.bucket, &prefix, &sel, truncated, limit, false).into_bytes();
+                self.log.push((req.raw.clone(), 997));
+                note.notify_one();
+                let keep = xml.len() / 2;
+                return Resp::stalled(xml[..keep].to_vec(), xml.len() - keep);
+            }
+        }
         let faulted = req.is_list() && self.fail_at == Some(self.log.len());
         let resp = if faulted && self.log.len() % 3 != 2 {
             // a server error, or a reply that is not HTTP at all (a transport failure) ...
@@ -209,10 +226,52 @@ fn check_bucket(obs: &mut Obs, newest: usize, p: usize, rng: &mut Rng, label: &s
     // statement says nothing about the directory reported then (an error is fine too), but if an
     // answer is returned its call count must still be the requests really issued
     let fail_at: Option<usize> = if rng.chance(1, 6) { Some(rng.usize_below(14)) } else { None };
-    let scope = Arc::new(Mutex::new(RotBucket { site: site.clone(), vols, log: Vec::new(), fail_at }));
+    let scope = Arc::new(Mutex::new(RotBucket { site: site.clone(), vols, log: Vec::new(), fail_at, stall_at: None }));
     sim.register(&site, scope.clone());
     obs.case(mix(mix(151, newest as u64), p as u64));
     let replay = json!({"part": "get_latest_volume", "newest_volume": newest, "populated": p, "label": label});
+    // Two discoveries of the same site in flight at once on one runtime (one bucket in six): each
+    // must name the newest directory, and the counts they report must add up to the listing
+    // requests the simulator really received for that site.
+    if fail_at.is_none() && rng.chance(1, 6) {
+        let r = mon::catch(|| s3sim::block_on(false, async { tokio::join!(get_latest_volume(&site), get_latest_volume(&site)) }));
+        sim.unregister(&site);
+        let lists = scope.lock().map(|s| s.log.len()).unwrap_or(0);
+        let want = if p == 0 { None } else { Some(newest) };
+        match r {
+            Err(pn) => obs.violation(format!("get_latest_volume {}", pn.signature()), pn.message, replay),
+            Ok((Ok(a), Ok(b))) => {
+                let (ga, gb) = (a.volume.map(|v| v.as_number()), b.volume.map(|v| v.as_number()));
+                if ga != want || gb != want {
+                    obs.violation(
+                        "latest volume is not the newest populated directory when two discoveries of the site are in flight at once",
+                        format!("newest {} populated {}: expected {:?}, observed {:?} and {:?}", newest, p, want, ga, gb),
+                        replay.clone(),
+                    );
+                }
+                if a.calls + b.calls != lists {
+                    obs.violation(
+                        "reported call counts of two discoveries in flight at once do not add up to the listing requests issued",
+                        format!("reported {} + {}, simulator logged {}", a.calls, b.calls, lists),
+                        replay.clone(),
+                    );
+                }
+                if a.calls > call_bound(999) || b.calls > call_bound(999) {
+                    obs.violation("listing requests exceed the directory count by more than a logarithmic term", format!("{} and {} requests, bound {}", a.calls, b.calls, call_bound(999)), replay);
+                }
+                obs.count("pairs_of_discoveries_in_flight_at_once_on_one_site", 1);
+            }
+            Ok((ra, rb)) => {
+                let text = format!("{:?} / {:?}", ra.as_ref().err(), rb.as_ref().err());
+                if text.contains("onnect") {
+                    obs.skipped_environment(format!("loopback connect to the simulator failed: {text}"));
+                } else {
+                    obs.violation("get_latest_volume fails against a well-formed bucket", text, replay);
+                }
+            }
+        }
+        return;
+    }
     let r = mon::catch(|| s3sim::block_on(false, get_latest_volume(&site)));
     sim.unregister(&site);
     let log = scope.lock().map(|s| s.log.clone()).unwrap_or_default();
@@ -322,10 +381,49 @@ fn check_history(obs: &mut Obs, rng: &mut Rng, index: u64) {
             p = 0; // the bucket was emptied (and is asked again)
         }
     }
-    let scope = Arc::new(Mutex::new(RotBucket { site: site.clone(), vols: Default::default(), log: Vec::new(), fail_at: None }));
+    let scope = Arc::new(Mutex::new(RotBucket { site: site.clone(), vols: Default::default(), log: Vec::new(), fail_at: None, stall_at: None }));
     sim.register(&site, scope.clone());
     let mut t0: i64 = 1_722_000_000_000 + rng.below(1_000_000_000) as i64;
+    let mut after_given_up;
     for (k, (newest, p)) in states.iter().copied().enumerate() {
+        // Before half of the later steps the caller gives a discovery up: it is started against the
+        // bucket as it stood, the simulator lets a few listings through and stalls the next one
+        // half-way through its body, and the future is dropped at that point.  Then the bucket
+        // moves on and the site is asked again - an ordinary discovery, judged as always (only the
+        // request count is not compared on that step: a request of the abandoned discovery may
+        // still reach the simulator afterwards).
+        after_given_up = false;
+        if k >= 1 && rng.chance(1, 2) {
+            let note = Arc::new(tokio::sync::Notify::new());
+            let at = rng.usize_below(24) + 1;
+            if let Ok(mut g) = scope.lock() {
+                g.log.clear();
+                g.stall_at = Some((at, note.clone()));
+            }
+            let gave_up = mon::catch(|| {
+                s3sim::block_on(false, async {
+                    tokio::select! {
+                        _ = get_latest_volume(&site) => false,
+                        _ = note.notified() => true,
+                        _ = tokio::time::sleep(std::time::Duration::from_secs(5)) => true,
+                    }
+                })
+            });
+            if let Ok(mut g) = scope.lock() {
+                g.stall_at = None;
+            }
+            match gave_up {
+                Ok(true) => {
+                    obs.count("discoveries_given_up_midway_before_the_site_is_asked_again", 1);
+                    after_given_up = true;
+                }
+                Ok(false) => obs.count("discoveries_meant_to_be_given_up_that_completed_first", 1),
+                Err(pn) => {
+                    obs.violation(format!("get_latest_volume {}", pn.signature()), pn.message, json!({"part": "get_latest_volume history", "scenario_index": index, "step": k, "given_up": true}));
+                    break;
+                }
+            }
+        }
         t0 += 400 * 300_000;
         let vols = build_vols(&site, newest, p, t0, 300_000, rng);
         if let Ok(mut g) = scope.lock() {
@@ -362,7 +460,9 @@ fn check_history(obs: &mut Obs, rng: &mut Rng, index: u64) {
                     );
                     break;
                 }
-                if res.calls != log_len {
+                if after_given_up {
+                    obs.count("discoveries_right_after_one_that_was_given_up", 1);
+                } else if res.calls != log_len {
                     obs.violation(
                         "reported call count differs from the listing requests issued",
                         format!("step {}: reported {}, simulator logged {}", k, res.calls, log_len),
@@ -370,7 +470,7 @@ fn check_history(obs: &mut Obs, rng: &mut Rng, index: u64) {
                     );
                     break;
                 }
-                if log_len > call_bound(999) {
+                if !after_given_up && log_len > call_bound(999) {
                     obs.violation(
                         "listing requests exceed the directory count by more than a logarithmic term",
                         format!("step {}: {} requests, bound {}", k, log_len, call_bound(999)),
